@@ -18,7 +18,6 @@ CONSTANTS
   MaxStops = 1
   MaxExpire = 1
   IgnoredStarts = FALSE
-  RaceFinder = FALSE
-  RaceBuffer = FALSE
+  PreRepair = FALSE
 INVARIANTS DeliveredAscending Outcome AncestorCommon NeverBeyondTarget PeerConservation ConnQueueSane HashReqSane NoActorBlock
 CHECK_DEADLOCK FALSE
